@@ -1900,23 +1900,27 @@ class MapResult(ApplyResult):
 
     def _set(self, i, success_result):
         success, result = success_result
-        if success:
-            self._value[i * self._chunksize:(i + 1) * self._chunksize] = result
-            self._number_left -= 1
-            if self._number_left == 0:
-                if self._callback:
-                    self._callback(self._value)
+        with self._mutex:
+            if self._event.is_set():
+                # already resolved: the outcome is final.
+                return
+            if success:
+                self._value[i * self._chunksize:(i + 1) * self._chunksize] = result
+                self._number_left -= 1
+                if self._number_left == 0:
+                    if self._callback:
+                        self._callback(self._value)
+                    if self._accepted:
+                        self._cache.pop(self._job, None)
+                    self._event.set()
+            else:
+                self._success = False
+                self._value = result
+                if self._error_callback:
+                    self._error_callback(self._value)
                 if self._accepted:
                     self._cache.pop(self._job, None)
                 self._event.set()
-        else:
-            self._success = False
-            self._value = result
-            if self._error_callback:
-                self._error_callback(self._value)
-            if self._accepted:
-                self._cache.pop(self._job, None)
-            self._event.set()
 
     def _ack(self, i, time_accepted, pid, *args):
         start = i * self._chunksize
